@@ -119,6 +119,13 @@ type State struct {
 	lastRange *ssa.Range
 }
 
+// niReturn: one return path of a function under a non-interference contract.
+type niReturn struct {
+	log  []string
+	outs []string
+	tag  string
+}
+
 type localMap struct {
 	ref  Term
 	k, v types.Type
@@ -252,6 +259,8 @@ type Exec struct {
 	pendingLocals func(name string) (tv, bool)
 	constGlobals []string
 	usedAxioms map[string]bool
+	niReturns   []niReturn
+	niSecrets   map[string][]Term // component -> references whose contents are secret
 	diamondStop *ssa.BasicBlock
 	diamondEnds *[]*State
 	merged      int
